@@ -3,6 +3,7 @@ package main
 import (
 	"crypto/tls"
 	"fmt"
+	"strings"
 
 	vrt "verif/rt"
 )
@@ -53,10 +54,19 @@ func msgID(ci, k int) int64 { return int64((ci+1)*1000 + k) }
 // opMsgID: the message ID the client uses for request k of connection ci ("unbind0" is an Unbind with
 // message ID 0, which RFC 4511 reserves for unsolicited notifications but which a client can still send).
 func opMsgID(op string, ci, k int) int64 {
-	if op == "unbind0" {
+	if isZeroID(op) {
 		return 0
 	}
 	return msgID(ci, k)
+}
+
+// "<op>@0" is <op> sent with message ID 0; "unbind0" is the same for Unbind.
+func isZeroID(op string) bool { return op == "unbind0" || strings.HasSuffix(op, "@0") }
+func baseOp(op string) string {
+	if op == "unbind0" {
+		return "unbind"
+	}
+	return strings.TrimSuffix(op, "@0")
 }
 
 func isUnbind(op string) bool { return op == "unbind" || op == "unbind0" }
@@ -254,11 +264,7 @@ func runClient(w *World, ci int, name string, cs *ConnSpec) {
 			vrt.Atomic(func() { w.Notes[name+"-starttls-response"]++ })
 			continue
 		}
-		if op == "unbind0" {
-			pending = append(pending, reqBytes("unbind", 0)...)
-		} else {
-			pending = append(pending, reqBytes(op, msgID(ci, k))...)
-		}
+		pending = append(pending, reqBytes(baseOp(op), opMsgID(op, ci, k))...)
 		expectSoFar += framesFor(cs.H[k])
 		inSeg++
 		if segs != nil && si < len(segs) && inSeg == segs[si] {
